@@ -1382,12 +1382,12 @@ expr0:
                         if (t3 == TYPE_FUNCTION) {
                             yyerror("Bad right argument to '+' (function)");
                             result_type = TYPE_ANY;
-                        } else result_type = t3;
+                        } else result_type = (t3 == TYPE_NUMBER ? TYPE_ANY : t3); /* mixed OP int is not known to be an int: the mixed operand may hold a float */
                     } else if (t3 == TYPE_ANY) {
                         if (t1 == TYPE_FUNCTION) {
                             yyerror("Bad left argument to '+' (function)");
                             result_type = TYPE_ANY;
-                        } else result_type = t1;
+                        } else result_type = (t1 == TYPE_NUMBER ? TYPE_ANY : t1);
                     } else {
                         switch(t1) {
                             case TYPE_STRING:
@@ -1535,7 +1535,7 @@ add_error:
                         switch(t3){
                             case TYPE_REAL:
                             case TYPE_NUMBER:
-                                result_type = t3;
+                                result_type = (t3 == TYPE_NUMBER ? TYPE_ANY : t3); /* mixed OP int is not known to be an int: the mixed operand may hold a float */
                                 break;
                             default:
                                 if (!(t3 & TYPE_MOD_ARRAY)){
@@ -1547,7 +1547,7 @@ add_error:
                         switch(t1){
                             case TYPE_REAL:
                             case TYPE_NUMBER:
-                                result_type = t1;
+                                result_type = (t1 == TYPE_NUMBER ? TYPE_ANY : t1);
                                 break;
                             default:
                                 if (!(t1 & TYPE_MOD_ARRAY)){
@@ -1631,7 +1631,7 @@ add_error:
                             case TYPE_NUMBER:
                             case TYPE_REAL:
                             case TYPE_MAPPING:
-                                result_type = t;
+                                result_type = (t == TYPE_NUMBER ? TYPE_ANY : t); /* mixed OP int is not known to be an int: the mixed operand may hold a float */
                                 break;
                             default:
                                 type_error((t1 == TYPE_ANY) ?
@@ -1711,7 +1711,7 @@ add_error:
                     } else if (t1 == TYPE_ANY || t3 == TYPE_ANY){
                         lpc_type_t t = (t1 == TYPE_ANY) ? t3 : t1;
                         if (t == TYPE_REAL || t == TYPE_NUMBER)
-                            result_type = t; 
+                            result_type = (t == TYPE_NUMBER ? TYPE_ANY : t); /* mixed OP int is not known to be an int: the mixed operand may hold a float */
                         else {
                             type_error(t1 == TYPE_ANY ?
                                        "Bad argument 2 to '/'" :
